@@ -22,6 +22,7 @@ RULE = (
     "requests is issued to one parser instance, plus seeded random histories of length 4-6 over the whole 660-request "
     "pool and over C01-generated lines, plus histories through Config.set_args_parser / Command.parse shared by two "
     "commands. Each outcome is compared with a pristine-world reference; argv lists, RawArgs and format listings are "
+    "Also: a consumer appends to every default list a result hands out (the format listing must not change). "
     "snapshotted around every call; earlier results are re-read at the end of the history. non-trivial = history with "
     "two requests that differ in the set of options given; distinct by tuple of request ids."
 )
